@@ -70,7 +70,12 @@ func sameReferent(d *Decl, it *Item, cm *Cmd) bool {
 
 func c08Run(c *Ctx) {
 	r := c.R
-	d := GenDecl(c.Sub("d"), c08Cfg())
+	cfg := c08Cfg()
+	if c.K%31 == 7 && !inHistTail(c, 40000, 600000) {
+		// a very deep chain of commands (9-12 levels): the options of every enclosing command stay in scope
+		cfg.MaxDepth, cfg.MaxFan, cfg.PCmds, cfg.PPos, cfg.OptsMax = 9+int(c.K/31)%4, 1, 100, 0, 2
+	}
+	d := GenDecl(c.Sub("d"), cfg)
 	if inHistTail(c, 40000, 600000) {
 		// scoping follows the declaration as it is now, not as it was when a command was first selected
 		histCase(c, d, []string{"late-group-on-ancestor", "late-group-in-group", "rename-namespace", "delimiter", "rename-option", "alias-added", "command-renamed", "alias-added", "command-renamed"}, []string{"parse"})
